@@ -132,6 +132,7 @@ type crashStats struct {
 	walLost     int
 	snapFiles   int
 	tornInWal   bool
+	grown       int // files that grew past their durable length with an unsynced last sector
 	shortTail   int // files whose lost tail is missing from the image (size never updated)
 	description string
 }
@@ -177,6 +178,9 @@ func (sh *shadow) materialise(src, dst string, choose func(n int) []bool, short 
 			if !bytes.Equal(vol[lo:hi], fs.old[lo:hi]) {
 				fs.dirty = append(fs.dirty, sec)
 			}
+		}
+		if len(vol) > fs.durLen && len(fs.dirty) > 0 && fs.dirty[len(fs.dirty)-1] == (len(vol)-1)/sector {
+			cs.grown++
 		}
 		files = append(files, fs)
 	}
